@@ -151,8 +151,12 @@ class TorchOps(Ops):
         if dtype == "Mixed":
             self.ev("dtype_mix", node, left=a.dtype, right=b.dtype)
         self.note_degree(deg_add(a.deg, b.deg), a, b, node)
-        return TV(kind=kind, axes=axes, p=p, q=q, s=s, z=z, span=span, deg=deg_add(a.deg, b.deg), dtype=dtype,
-                  origin=a.origin | b.origin, gen=a.gen | b.gen, rng=a.rng or b.rng)
+        out = TV(kind=kind, axes=axes, p=p, q=q, s=s, z=z, span=span, deg=deg_add(a.deg, b.deg), dtype=dtype,
+                 origin=a.origin | b.origin, gen=a.gen | b.gen, rng=a.rng or b.rng)
+        raw_ = lambda t, ax: t.alias and tuple(t.axes) == ax and t.origin == frozenset(["matrix"])
+        if raw_(a, ("R", "C")) and raw_(b, ("C", "R")):
+            out = self.tag(out, "gramian", node)  # J @ J.T: what derives from it only knows the inner products of the rows
+        return out
 
     # ====================================================================== indexing
     def index_axis(self, tv: TV, axis: int, idx, node, generic: bool) -> TV:
@@ -312,6 +316,10 @@ class TorchOps(Ops):
         parts = list(idx[1]) if idx[0] == "tuple" else [idx]
         if not parts and tv.note == "uninitialised":
             return tvv.but(kind=tv.kind, note="")  # buf[()] = v: the whole (uninitialised) buffer receives v
+        if len(parts) == 2 and all(pt[0] == "index" for pt in parts) and tuple(tv.axes) == ("R", "R") and not aug and tvv.note.startswith("pdist:"):
+            r_ = self._pair_scatter(tv, tv_of(parts[0][1]), tv_of(parts[1][1]), tvv, st)
+            if r_ is not None:
+                return r_
         p, q, s, z = tv.p and tvv.p, tv.q and tvv.q, tv.s and tvv.s, tv.z and tvv.z
         gen = tv.gen | tvv.gen
         rowdist = None
@@ -364,6 +372,28 @@ class TorchOps(Ops):
                 out = self.tag(out.but(origin=out.origin | it.origin), "index_put", st, axis=tv.axes[0], base_poly=tv.poly, base_axes=list(tv.axes), value_poly=tvv.poly,
                                size_poly=self.size_tv(tv, 0).poly if tv.axes else None, in_idx_of=it.idx_of, in_origin=sorted(it.origin), aug=bool(aug))
         return out
+
+    def _pair_scatter(self, tv, i0, i1, tvv, st):
+        """`D[rows, cols] = pdist(matrix)` with (rows, cols) = triu_indices(m, m, 1): pdist lists the pairs in exactly that order, so the upper triangle of D
+        receives the distances; the same store with the two index vectors swapped fills the lower triangle. Both halves on a zero matrix: what
+        torch.cdist(matrix, matrix) computes from exact differences. Any other enumeration of the pairs (tril_indices) puts distances on other pairs."""
+        if i0 is None or i1 is None or ":" not in i0.note or ":" not in i1.note:
+            return None
+        (k0, w0), (k1, w1) = i0.note.split(":", 1), i1.note.split(":", 1)
+        if k0 != k1 or {w0, w1} != {"rows", "cols"} or not k0.startswith("tri"):
+            return None
+        pn = tvv.note.split(":", 1)[1]
+        if k0 != "triu1":
+            self.ev("pdist_scatter_mismatch", st, indices=k0, why="pdist lists the pairs (i < j) like the upper triangle read row by row: (0,1), (0,2), ..., (1,2), ...")
+            return None
+        half = "upper" if (w0, w1) == ("rows", "cols") else "lower"
+        other = "lower" if half == "upper" else "upper"
+        if tv.poly is not None and tv.poly.const_value() == 0 and not tv.note:
+            return tv.but(p=False, q=tv.q and tvv.q, s=tv.s and tvv.s, z=tv.z and tvv.z, deg=tvv.deg, poly=None, origin=tv.origin | tvv.origin, note=f"pdhalf:{half}:{pn}")
+        if tv.note == f"pdhalf:{other}:{pn}":
+            out = tv.but(p=True, q=tv.q and tvv.q, s=tv.s and tvv.s, z=tv.z and tvv.z, deg=tvv.deg, poly=None, origin=tv.origin | tvv.origin, note="", alias=False)
+            return self.tag(out, "cdist", st, p=pn, compute_mode="donot_use_mm_for_euclid_dist", both_raw=True, eps=None, spelled="pdist scattered to both triangles")
+        return None
 
     def _persists_over(self, st, lids) -> bool:
         """The buffer written by the subscript store `st` was bound before the loops `lids` started and is not rebound inside them
